@@ -449,6 +449,14 @@ class VmSim:
             f = m.functions.get(name)
             if f is not None and f.cls is None and f.parent is None:
                 return Closure(f.node, self.module_env(modname), name=name)
+            imp = m.imports.get(name)
+            if imp and imp[0] == 'attr' and imp[1] in self.repo.modules:
+                # a function imported from another repository module
+                m2 = self.repo.modules[imp[1]]
+                f = m2.functions.get(imp[2])
+                if f is not None and f.cls is None and f.parent is None:
+                    return Closure(f.node, self.module_env(imp[1]),
+                                   name=imp[2])
         raise KeyError(name)
 
     def on_unknown_call(self, f, args, kwargs, node, interp):
